@@ -72,6 +72,12 @@ def obligations(tier, ctx):
             obs.append(Ob(name=f"many_lines_k{kind}_cap{cap}_ch{nch}", params=[("k", "int")], pre=[f"0 <= k < {nc}"], call=f"H.many_lines(k, {kind}, {cap}, {nch}, {lim})",
                           real=f"H.many_lines_real(k, {kind}, {cap}, {nch}, {lim})", backend="P", timeout=900,
                           family="(d) count: c-1, c, c+1 lines in one read (c: integer constants of the source), bounded read stream"))
+    ENV_SIZES = (4096, 8192, 65536, 131072)
+    llim = 70000 if tier == "quick" else 140000
+    nsz = len(consts.size_cases(llim, extra=ENV_SIZES))
+    for pat, cut, crlf in (((0, 0, False), (5, 2, True)) if tier == "quick" else ((0, 0, False), (0, 1, False), (0, 2, True), (0, 3, False), (0, 4, False), (5, 0, True), (5, 2, False), (4, 2, False), (1, 1, True))):
+        obs.append(Ob(name=f"long_line_p{pat}_c{cut}{'_crlf' if crlf else ''}", params=[("k", "int")], pre=[f"0 <= k < {nsz}"], call=f"H.long_line(k, {pat}, {cut}, {crlf}, {llim})", backend="P", timeout=900,
+                      family="(d) size: a line of c-1, c, c+1 characters (c: integer constants of the source and environment sizes), five ways of cutting it"))
     from symcheck.runner import mirror
     obs += mirror(obs, r"^(routing_notmsg_req_d0|routing_trail_d0|notify_refused_notif_resp|legacy_pending_resp_req)$", "F", limit=(2 if tier == "quick" else None))
     return obs
